@@ -87,8 +87,14 @@ func verifHash0() uint32 { return uint32(verifMix(verifRunSeed ^ 0x68617368)) }
 
 // verifIterStart: where an iteration starts (bucket and offset) follows from
 // the run and from the map's seed and size.
+// The four spare bits of hmap.flags count the iterations of that map (mod 16),
+// so that successive iterations over an unchanged map still start at
+// different places - as they do in the real runtime - without any global
+// sequence (one P, no preemption inside the runtime: the update is safe).
 func verifIterStart(h *hmap) uint64 {
-	return verifMix(verifRunSeed ^ uint64(h.hash0)<<7 ^ uint64(h.count)*0x9e3779b97f4a7c15 ^ uint64(h.B)<<56)
+	k := h.flags >> 4
+	h.flags = h.flags&0x0f | (k+1)<<4
+	return verifMix(verifRunSeed ^ uint64(h.hash0)<<7 ^ uint64(h.count)*0x9e3779b97f4a7c15 ^ uint64(h.B)<<56 ^ uint64(k)<<40)
 }
 
 func verifMapRand() uint64 {
@@ -121,7 +127,7 @@ func verifMapShrink(m unsafe.Pointer) {
 	h.hash0 = verifHash0()
 }
 EOP
-grep -q 'oldIterator' "$RT/map.go" && grep -q 'nevacuate  uintptr' "$RT/map.go" && grep -q 'extra \*mapextra' "$RT/map.go" || fail2 "runtime/map.go: hmap has an unexpected shape"
+grep -q 'sameSizeGrow = 8' "$RT/map.go" && grep -q 'oldIterator' "$RT/map.go" && grep -q 'nevacuate  uintptr' "$RT/map.go" && grep -q 'extra \*mapextra' "$RT/map.go" || fail2 "runtime/map.go: hmap has an unexpected shape"
 for f in map_fast32.go map_fast64.go map_faststr.go; do
   [ "$(grep -c 'rand()' "$RT/$f")" = "1" ] && grep -q 'h.hash0 = uint32(rand())' "$RT/$f" || fail2 "runtime/$f of this toolchain has an unexpected shape"
   sed 's/h\.hash0 = uint32(rand())/h.hash0 = verifHash0()/' "$RT/$f" > "$TMP/$f"
